@@ -100,6 +100,9 @@ Definition odf_legacy (href : str) : str := href.
 (* open_office/_shared.odf_member_name(href) = resolve_part_name("", href), used for ctx.exists / ctx.read_bytes *)
 Definition odf_member (href : str) : str := resolve_part [] href.
 
+(* ZipContext.exists(p) / read_bytes(p): `p in set(zip.namelist())`, `zip.read(p)` — exact member name *)
+Definition member_of (names : list str) (p : str) : option str := if mem_str p names then Some p else None.
+
 (* ------------------------------------------------------------------ 2. sniffers (bytes = list Z) *)
 Open Scope Z_scope.
 
